@@ -62,8 +62,8 @@ def run (op : String) (a : Json) : Option (Except String Json) :=
         | _ => .error "bad substitution pair"
       let refs ← (← asArr (fld a "refs")).mapM asStr
       -- CalculateAttributePaths, UpdateAttributesEffectiveChoice, AddAttributeSubstitutions, MergeAttributes
-      let ss := effectiveChoice (calculatePaths (sites (← dParticle (fld a "particle"))))
-      pure <| ok (jList jSite (mergeDuplicates (substituteAll pairs refs ss)))
+      let mem : Str → List Str := fun n => if refs.contains n then membersOf pairs (pairs.length + 1) n else []
+      pure <| ok (jList jSite (occursSubst mem (sites (← dParticle (fld a "particle")))))
   | _ => none
 
 end OpsGenDerive
